@@ -72,8 +72,8 @@ def gen_cases(tier, seed):
     nrep = 5 if tier == "quick" else 60
     methods = ["AM1", "PM3", "MNDO", "PM6_SP"]
     hetero = ["H2O", "NH3", "CH4", "HCN", "CH2O", "CO", "HF", "CH3OH", "C2H4", "N2", "CH3F", "HOOH"]
-    for op in OPERATORS:
-        for r in range(nrep):
+    for r in range(nrep):                 # round-robin over the operators, so that a truncated run still sees all of them
+        for op in OPERATORS:
             method = methods[int(g.integers(0, 4))]
             names = [n for n in hetero if gen.available(n, method)]
             multi = [n for n in names if len(set(gen.molecule(n)[0])) > 1]
